@@ -483,7 +483,8 @@ def greedy_oracle(ctx):
     from construct.lib import bits2bytes, bytes2bits
 
     def oracle(case):
-        fields, data = case
+        fields, data = case[:2]
+        optw = case[2] if len(case) > 2 else None      # width of an Optional(BitsInteger) tried between the fields and the rest
         total = sum(width(f) for f in fields)
         nbits = 8 * len(data)
         if total > nbits:
@@ -491,11 +492,17 @@ def greedy_oracle(ctx):
         rest_bits = nbits - total
         acc = int.from_bytes(data, "big")
         want_vals = model_parse(fields, acc >> rest_bits, total)
+        want_opt = None
+        if optw is not None and optw <= rest_bits:
+            want_opt = (acc >> (rest_bits - optw)) & ((1 << optw) - 1)
+            rest_bits -= optw
         want_rest = bytes((acc >> (rest_bits - 1 - i)) & 1 for i in range(rest_bits))
 
         def inner():
             st_, _ = make(fields, False)
-            return C.Struct(*(list(st_.subcons) + ["rest" / C.GreedyBytes]))
+            # (an attempt that runs out of data takes nothing: what it had looked at is still there for the next member)
+            extra = ["opt" / C.Optional(C.BitsInteger(optw))] if optw is not None else []
+            return C.Struct(*(list(st_.subcons) + extra + ["rest" / C.GreedyBytes]))
         impls = [("streaming", C.Bitwise(inner())), ("pre-read", C.Transformed(inner(), bytes2bits, None, bits2bytes, None))]
         ctx.record(case, total % 8 != 0, ["greedytail/" + ("unaligned" if total % 8 else "aligned"), "greedytail/rest=%d" % min(rest_bits, 16)])
         for name, con in impls:
@@ -503,9 +510,14 @@ def greedy_oracle(ctx):
             if not o.ok:
                 return Failure("C10/greedytail/parse-raises/%s" % name, "%s parse(%s) raised %r | fields=%s" % (name, data.hex(), o, fields))
             got = from_container(fields, o.value)
+            if optw is not None and o.value.opt != want_opt:
+                return Failure("C10/greedytail/optional/%s" % name, "%s parse(%s): Optional(BitsInteger(%d)) -> %r, expected %r (%d bits were left) | fields=%s" % (
+                    name, data.hex(), optw, o.value.opt, want_opt, nbits - total, fields))
             if got != want_vals or o.value.rest != want_rest:
                 return Failure("C10/greedytail/parse-value/%s" % name, "%s parse(%s) -> %s + rest %s, big-integer model %s + rest %s | fields=%s" % (
                     name, data.hex(), got, o.value.rest.hex(), want_vals, want_rest.hex(), fields))
+            if optw is not None:
+                continue        # (rebuilding is covered by the variant without the optional member)
             b = call(con.build, o.value)
             canon_fields, _ = model_build(fields, [0 if v is None else v for v in _fill(fields, want_vals)])
             want_bytes = ((canon_fields << rest_bits) | (acc & ((1 << rest_bits) - 1))).to_bytes(len(data), "big") if data else b""
@@ -522,7 +534,8 @@ def greedy_cases(draw):
     if total > 64:
         fields, total = [["bits", 3, False, False]], 3
     n = (total + 7) // 8 + draw(st.integers(0, 2))
-    return [fields, draw(st.binary(min_size=n, max_size=n))]
+    optw = draw(st.one_of(st.none(), st.none(), st.integers(1, 40)))
+    return [fields, draw(st.binary(min_size=n, max_size=n)), optw]
 
 
 def campaign_greedytail(ctx):
